@@ -74,6 +74,12 @@ func fixedCases() []corr.Case {
 		mk("fixed-sized", "news 1048576", "cap", "len", "write 0102", "cap", "news 4194303", "cap", "news 4194304", "cap", "len", "writebyte 01", "cap", "bytes"),
 		mk("fixed-sized", "news 4194305", "cap", "len", "write x0:100", "cap", "readbyte", "unreadbyte", "len"),
 		mk("fixed-sized", "news 16777216", "cap", "len", "writebyte 07", "cap", "news 67108864", "cap", "len", "writerune 8364", "cap", "bytes"),
+		// payload aliasing the buffer (memmove semantics of copy), overlapping forwards and backwards
+		mk("fixed-rewrite-self", "news 16", "write 0102030405060708", "rewriteself 2 0 6", "bytes", "rewriteself 0 2 8", "bytes", "rewriteself 3 3 6", "bytes",
+			"readbyte", "rewriteself 2 0 5", "bytes", "rewriteself 1 0 7", "bytes", "rewriteself 8 0 4", "rewriteself 9 0 4", "rewriteself -1 0 4", "rewriteself 0 9 3", "bytes"),
+		mk("fixed-rewrite-self", "new", "write x0:300", "read 40", "rewriteself 41 0 259", "bytes", "rewriteself 40 1 260", "bytes", "rewriteself 100 0 200", "bytes"),
+		// single payloads above 1 MiB and above 16 MiB (fresh buffers; digest only)
+		mk("fixed-big", "new", "big 7 1048577 5", "big 3 16777217 1", "big 9 16777216 16777216", "big 1 0 0", "big 2 70 64", "writebyte 01", "bytes"),
 		// malformed
 		mk("fixed-malformed", "new", "write 0", "write zz", "writebyte 0102", "writerune 2147483648", "read -1", "frobnicate", "readfrom 00 maybe 0", "writeto short", "new 1", "rewrite 1", "len 3", "len"),
 	}
@@ -97,7 +103,7 @@ func (g *gen) emit(l string) {
 	switch f[0] {
 	case "grow":
 		g.taint = true
-	case "len", "bytes", "string", "cap", "off", "rewrite":
+	case "len", "bytes", "string", "cap", "off", "rewrite", "rewriteself", "memprobe", "big":
 	default:
 		g.taint = false
 	}
@@ -270,6 +276,11 @@ func (g *gen) op(kind string) string {
 		return g.readfrom()
 	case "writeto":
 		return g.writeto()
+	case "rewriteself":
+		st := off + ln
+		from := g.r.Intn(ln + 2)
+		return "rewriteself " + strconv.Itoa(g.r.PickInt(off, off+from, off+from+1, nonNeg(off+from-1), off+1, st-1, st, st+1, g.r.Intn(st+2))) + " " +
+			strconv.Itoa(from) + " " + strconv.Itoa(from+g.r.PickInt(0, 1, 2, 8, ln, g.r.Intn(ln+2)))
 	case "rewrite":
 		st := off + ln
 		pos := g.r.PickInt(0, off, off+1, st-1, st, st+1, -1, g.r.Intn(st+2), off-1)
@@ -309,13 +320,13 @@ var wIO = []weighted{{"readfrom", 25}, {"writeto", 20}, {"write", 12}, {"read", 
 	{"cap", 5}, {"off", 3}, {"bytes", 4}, {"truncate", 3}}
 var wHazard = []weighted{{"write", 14}, {"readbyte", 10}, {"readrune", 10}, {"read", 8}, {"next", 5}, {"grow", 20}, {"unreadbyte", 12}, {"unreadrune", 10},
 	{"len", 3}, {"bytes", 4}, {"cap", 3}, {"off", 3}}
-var wRewrite = []weighted{{"rewrite", 30}, {"write", 20}, {"writebyte", 5}, {"read", 8}, {"readbyte", 5}, {"unreadbyte", 4}, {"grow", 5}, {"bytes", 8},
+var wRewrite = []weighted{{"rewrite", 22}, {"rewriteself", 14}, {"write", 20}, {"writebyte", 5}, {"read", 8}, {"readbyte", 5}, {"unreadbyte", 4}, {"grow", 5}, {"bytes", 8},
 	{"off", 4}, {"cap", 3}, {"truncate", 3}, {"reset", 1}, {"next", 3}}
 
 var malformed = []string{"nop", "write", "write 0", "write 0g", "write AB", "writebyte", "writebyte 0102", "writebyte -", "writerune", "writerune 2147483648",
 	"writerune x", "read", "read -1", "read 1 2", "readbyte 1", "next", "next 1 2", "truncate", "grow", "grow 1 2", "readfrom", "readfrom 00", "readfrom 00 eof",
 	"readfrom 00 nope 0", "readfrom 00 eof x", "readfrom 00 eof 0 -1", "readfrom 00 eof++ 0", "readfrom 00 eof 0 0*1001", "readfrom 00 eof 0 1*2*3", "readfrom 00 eof 0 *3", "readfrom 00 eof 0 3*", "readfrom 00 + 0", "writeto", "writeto short", "writeto all 1", "writeto some 1", "rewrite", "rewrite 1",
-	"rewrite x 00", "memprobe", "memprobe x", "memprobe 1 2", "len 1", "cap 1", "newb", "newb 00", "news", "news x", "new 1", "write x1", "write x1:2:3", "write x1:2000000"}
+	"rewrite x 00", "rewriteself", "rewriteself 1 2", "rewriteself 1 -2 3", "big", "big 1 2", "big 1 2 3", "big 1 67108865 0", "memprobe", "memprobe x", "memprobe 1 2", "len 1", "cap 1", "newb", "newb 00", "news", "news x", "new 1", "write x1", "write x1:2:3", "write x1:2000000"}
 
 // largeCases: Grow across the 4 MiB / 16 MiB boundaries and contents above 4 MiB. The oracle materialises byte lists of that
 // size (seconds, hundreds of MB), so they run as the first cases of the thorough and search tiers only.
